@@ -70,16 +70,29 @@ def gen_history(rng, tag, shipped):
             return ["convert", synth.small_mag(rng), sysm.term(src), sysm.term(dst)]
         return [kind, synth.small_mag(rng), sysm.term(src), synth.small_mag(rng), sysm.term(dst)]
 
-    finals = [rand_query() for _ in range(rng.randint(6, 14))]
+    def reverse(q):
+        """the same question asked the other way round (b -> a, b == a, b < a)"""
+        if q[0] == "convert":
+            return ["convert", q[1], q[3], q[2]]
+        return [q[0], q[3], q[4], q[1], q[2]]
+
+    finals = [rand_query() for _ in range(rng.randint(6, 12))]
+    finals += [reverse(q) for q in finals if rng.random() < 0.4]   # a search that fails one way may succeed the other way
     ops1 = list(defs)
     if rng.random() < 0.5:
         ops1 += finals  # every final query is first asked before anything has been declared
     for d in decls:
         for _ in range(rng.randint(0, 4)):
             q = rng.choice(finals) if rng.random() < 0.7 else rand_query()
+            if rng.random() < 0.3:
+                q = reverse(q)
             ops1.append(q)
         ops1.append(["cache_info"])
         ops1.append(d)
+    # after the last declaration nothing empties the memo tables any more: questions asked now (the finals the other
+    # way round, other pairs) are the history the final answers must not depend on
+    for _ in range(rng.randint(0, 6)):
+        ops1.append(reverse(rng.choice(finals)) if rng.random() < 0.7 else rand_query())
     final_start = len(ops1)
     ops1 += finals
     ops1 += [["cache_info"], ["flush"]]
@@ -163,6 +176,64 @@ def gen_scale_history(rng, tag):
 small_mag = synth.small_mag
 
 
+def gen_power_history(rng, tag):
+    """user units of a derived dimension (volume, area, speed, pressure) declared as a number of a *power or product*
+    of shipped units, asked against the shipped named units of that dimension in both directions - a search that
+    fails one way (load -> cup) often succeeds the other way (cup -> load), and must go on doing so"""
+    families = {
+        "volume": (["mul", ["pow", ["u", "yard"], 3], ["u", "one"]], ["pow", ["u", "foot"], 3], ["cup", "pint", "quart", "gallon", "liter", "fluid ounce", "barrel", "tablespoon", "minim", "bushel", "gill", "peck", "cord", "stere", "acre-foot", "teaspoon"]),
+        "area": (["pow", ["u", "yard"], 2], ["pow", ["u", "meter"], 2], ["acre", "hectare", "barn", "section", "shed", "survey township"]),
+        "speed": (["div", ["u", "mile"], ["u", "hour"]], ["div", ["u", "meter"], ["u", "second"]], ["knot"]),
+        "pressure": (["div", ["u", "newton"], ["pow", ["u", "meter"], 2]], ["div", ["u", "pound-force"], ["pow", ["u", "inch"], 2]], ["pascal", "pounds per square inch"]),
+    }
+    dim = rng.choice(["volume", "volume", "area", "area", "speed", "pressure"])
+    t1, t2, named = families[dim]
+    mine = [f"zq{tag}{dim[0]}{k}" for k in range(rng.randint(1, 2))]
+    defs = [["define", n, n, ["dimname", dim]] for n in mine]
+    decls = []
+    for k, n in enumerate(mine):
+        decls.append(["declare", ["u", n], ["i", rng.choice([2, 8, 10])], rng.choice([t1, t2]) if k == 0 else ["u", mine[0]]])
+
+    def query(a=None, b=None):
+        a = a or rng.choice(mine)
+        b = b or rng.choice(named)
+        if rng.random() < 0.5:
+            a, b = b, a
+        kind = rng.choice(["convert", "convert", "convert", "eq", "lt"])
+        if kind == "convert":
+            return ["convert", small_mag(rng), ["u", a], ["u", b]]
+        return [kind, small_mag(rng), ["u", a], small_mag(rng), ["u", b]]
+
+    def reverse(q):
+        if q[0] == "convert":
+            return ["convert", q[1], q[3], q[2]]
+        return [q[0], q[3], q[4], q[1], q[2]]
+
+    finals = [query() for _ in range(rng.randint(6, 10))]
+    finals += [reverse(q) for q in finals if rng.random() < 0.5]
+    finals += [query(a=rng.choice(named), b=rng.choice(named)) for _ in range(3)]
+    ops1 = list(defs)
+    if rng.random() < 0.4:
+        ops1 += finals
+    for d in decls:
+        for _ in range(rng.randint(0, 3)):
+            ops1.append(rng.choice(finals))
+        ops1.append(["cache_info"])
+        ops1.append(d)
+    for _ in range(rng.randint(3, 10)):
+        ops1.append(reverse(rng.choice(finals)) if rng.random() < 0.7 else query())
+    final_start = len(ops1)
+    ops1 += finals
+    ops1 += [["cache_info"], ["flush"]]
+    after_flush = len(ops1)
+    ops1 += finals
+    ops2 = list(defs) + list(decls)
+    base_start = len(ops2)
+    ops2 += finals
+    mods = ["si", "us", "avoirdupois", "metric"]
+    return ({"modules": mods, "ops": ops1}, {"modules": mods, "ops": ops2}, finals, final_start, after_flush, base_start, len(defs), len(decls))
+
+
 class Num:
     """a returned magnitude compared *numerically*: the route a plan takes may depend on the
     order in which compound units happened to be interned, which changes a Decimal's
@@ -242,6 +313,9 @@ def run(ctx):
         if i % 4 == 1:
             cases.append(gen_scale_history(rng, tag=f"c08s{ctx.seed}i{i}"))
             ctx.count("histories_over_units_with_a_zero_point")
+        elif i % 4 == 3:
+            cases.append(gen_power_history(rng, tag=f"c08s{ctx.seed}i{i}"))
+            ctx.count("histories_over_power_defined_units_against_shipped_named_units")
         else:
             cases.append(gen_history(rng, tag=f"c08s{ctx.seed}i{i}", shipped=(i % 3 == 2)))
     specs = []
